@@ -391,6 +391,7 @@ class Dataflow:
         if s[0] == "A":
             pl, rv = s[1], s[2]
             p = self.canon.path(pl)
+            st0_ = st          # the state before this statement kills anything (operands are read first)
             # a single-assignment alias temp never appears as a root; skip kill for speed if no key
             carried = None
             if rv[0] == "use" and rv[1][0] in ("c", "m") and st:
@@ -415,6 +416,29 @@ class Dataflow:
             if rv[0] == "use" and rv[1][0] == "k" and rv[1][1] == "int" and pl[1]:
                 st = dict(st)
                 st[("val", p)] = ("in", frozenset([int(rv[1][3])]))
+            if rv[0] == "agg" and rv[1][0] in ("tuple", "adt") and len(rv) > 2 and rv[2]:
+                # `x = (a, true)` / `S { f: 3, g: y }`: constants and what is known about moved-in places become facts about x's fields
+                names = [str(i) for i in range(len(rv[2]))] if rv[1][0] == "tuple" else list(rv[1][4] or [])
+                is_enum = False
+                if rv[1][0] == "adt":
+                    a_ = self.facts.adts.get(rv[1][1]) if self.facts else None
+                    is_enum = bool(a_) and a_["adt_kind"] == "enum"
+                if len(names) == len(rv[2]) and not is_enum:
+                    dp = p if pl[1] else (pl[0], ())
+                    new_facts = []
+                    for nm_, op_ in zip(names, rv[2]):
+                        if op_[0] == "k" and op_[1] == "int":
+                            new_facts.append((("val", (dp[0], dp[1] + (nm_,))), ("in", frozenset([int(op_[3])]))))
+                        elif op_[0] in ("c", "m") and st0_:
+                            sp_ = self.canon.path(op_[1])
+                            n_ = len(sp_[1])
+                            for k_, v_ in st0_.items():
+                                if k_[0] in ("disc", "val") and k_[1][0] == sp_[0] and k_[1][1][:n_] == sp_[1]:
+                                    new_facts.append(((k_[0], (dp[0], dp[1] + (nm_,) + k_[1][1][n_:])), v_))
+                    if new_facts:
+                        st = dict(st)
+                        for k_, v_ in new_facts:
+                            st[k_] = v_
             if rv[0] == "agg" and rv[1][0] == "adt":
                 adt = self.facts.adts.get(rv[1][1]) if self.facts else None
                 if adt and adt["adt_kind"] == "enum":
